@@ -10,6 +10,9 @@ describe exactly that layout: chunk-location in the grid, array-location = exten
 brute force, block shape = extent lengths, block CONTENT = the input's NumPy value at that
 location, num-chunks = call-time block counts, output info consistent with the advertised output
 chunks; the set of chunk-locations is the whole grid unless something above culls.
+For two-input calls without chunks= an HONEST block function (`FnLike`: shaped like the first input with the most
+blocks along every axis, the documented default block structure) is used half of the time: the shape it produces
+must be block_info[None]['chunk-shape'] (lifts a tie-break disagreement of `bi.mb` to a concrete failing call).
 Correspondence: Lean model (Model/BlockInfo.lean, driver `bi.*`) vs recorded payloads, the real
 `map_blocks` output chunks and `ChunksFreeze.lower_once`.
 """
@@ -79,10 +82,12 @@ class Recorder:
         self.live = False
         self.calls = []
 
-    def body(self, blocks, block_info, block_id):
+    def body(self, blocks, block_info, block_id, ret_shape=None):
         entry = None
         if self.live:
             entry = {"blocks": [np.array(b, copy=True) for b in blocks], "block_info": block_info, "block_id": block_id}
+            if ret_shape is not None:
+                entry["ret_shape"] = tuple(int(v) for v in ret_shape)
         # value: depends only on the delivered blocks (so a NumPy oracle can be computed from the
         # call-time layout by brute force)
         code = 0
@@ -139,10 +144,43 @@ class FnBoth(_Fn):
         return np.full(shp if shp is not None else np.asarray(blocks[0]).shape, code, dtype=np.int64)
 
 
+class FnLike(_Fn):
+    """Honest block function of the DOCUMENTED default ("the resulting array is assumed to have the same block
+    structure as the first input array"; single-block axes broadcast): whatever block_info says, it returns a block
+    shaped, along every axis, like the block of the FIRST input with the most blocks along that axis.  `leaders`
+    (one (input, axis) per output axis) is computed from the inputs' block COUNTS at call time, by this file."""
+
+    def __init__(self, rec, leaders):
+        super().__init__(rec)
+        self.leaders = leaders
+
+    def __call__(self, *blocks, block_info=None, block_id=None):
+        shape = tuple(int(np.asarray(blocks[i]).shape[ax]) for i, ax in self.leaders)
+        code, _ = self.rec.body(blocks, block_info, block_id, ret_shape=shape)
+        return np.full(shape, code, dtype=np.int64)
+
+
+def leaders_of(numblocks_per_input):
+    """per output axis (trailing alignment): (input, axis) of the first input with the most blocks along it"""
+    R = max(len(nb) for nb in numblocks_per_input)
+    out = []
+    for lab in range(R - 1, -1, -1):
+        best = None
+        for i, nb in enumerate(numblocks_per_input):
+            ax = len(nb) - 1 - lab
+            if ax >= 0 and (best is None or nb[ax] > best[0]):
+                best = (nb[ax], i, ax)
+        out.append((best[1], best[2]))
+    return out
+
+
 def mb_call(step, inputs, rec):
     """Build the real map_blocks call of a step on dask inputs."""
     import dask_array as da
 
+    if step.get("like"):
+        f = FnLike(rec, leaders_of([tuple(len(c) for c in a.chunks) for a in inputs]))
+        return da.map_blocks(f, *inputs, dtype=np.int64)
     f = rec.make(step["kw"])
     kwargs = {"dtype": np.int64}
     if step.get("chunks") is not None:
@@ -256,6 +294,11 @@ def check_calls(calls, c, npenv, expect_full_grid):
                     bad.append((f"output-info:{k}", f"block {bid}: got {got[k]} want {want[k]} (advertised output chunks {out_chunks})"))
             if np.dtype(o["dtype"]) != np.dtype(np.int64):
                 bad.append(("output-info:dtype", f"got {o['dtype']}"))
+            if "ret_shape" in call and got["chunk-shape"] != call["ret_shape"]:
+                # the block function follows the documented default block structure (first input with the most blocks)
+                bad.append(("output-info:chunk-shape-vs-produced",
+                            f"block {bid}: block_info[None]['chunk-shape'] {got['chunk-shape']} but a function shaped like the first input "
+                            f"with the most blocks produces {call['ret_shape']} (call-time input layouts {layouts}, advertised output chunks {out_chunks})"))
         for i, (lay, x) in enumerate(zip(layouts, xs)):
             shp, nch, k, aloc = expected_input_info(lay, out_ind, bid, bool(drop))
             blk = call["blocks"][i]
@@ -393,6 +436,9 @@ def gen_case(rng):
         yname = g.add(ysrc)
         step["args"] = [x, yname] if rng.random() < 0.7 else [yname, x]
         step["method"] = False
+        if rng.random() < 0.5:
+            step["like"] = True  # honest first-input-shaped function: the advertised output layout must be what it produces
+            step["kw"] = "both"
     elif r < 0.45 and nd >= 2:
         step["drop_axis"] = [rng.randrange(nd)]
     elif r < 0.6 and nd <= 2:
@@ -628,7 +674,8 @@ def run(ctx, replay=None):
     ctx.rule = (
         "random programs: chain of layout-changing producers (slice/rechunk/transpose/concatenate/roll/reduce/"
         "sliding-window reduction) -> map_blocks with a recording function (1-2 inputs, drop_axis/new_axis/chunks=, "
-        "block_info/block_id/both) -> 0-3 consumers (culling slice/rechunk/reduce/elemwise with a differently chunked array/"
+        "block_info/block_id/both; for 2 inputs also an honest function shaped like the first input with the most blocks whose "
+        "produced block shape must equal block_info[None]['chunk-shape']) -> 0-3 consumers (culling slice/rechunk/reduce/elemwise with a differently chunked array/"
         "transpose); each under optimize-graph True and False; distinct by (producer kinds, call variant, consumer kinds, optimize)"
     )
     ctx.assumptions = [
@@ -636,6 +683,9 @@ def run(ctx, replay=None):
         "calls made outside compute() (meta inference) are ignored",
         "index-label alignment of multiple inputs (trailing axes) is taken from the map_blocks documentation (brute-force spec in this file)",
     ]
+    if replay is not None and replay.get("case", {}).get("grid"):  # harness/props_ext/c02_grid.py
+        from harness.props_ext import c02_grid
+        return c02_grid.run_grid(ctx, replay)
     if replay is not None:
         prog = replay["case"]["prog"]
         root = replay["case"]["root"]
@@ -647,6 +697,9 @@ def run(ctx, replay=None):
         return
 
     correspondence_static(ctx)
+    # block_info / block_id / block-extent observers over pushdown targets incl. map_overlap (grid contract)
+    from harness.props_ext import c02_grid
+    c02_grid.run_grid(ctx)
 
     # corpus: the documented failure of the layout contract
     # (reduction(sliding_window_view(x)).map_blocks(f, chunks=(1,1)) with a block_info consumer)
@@ -690,7 +743,7 @@ def run(ctx, replay=None):
         n_done += 1
         kinds_below = tuple(sorted({st["op"] for st in prog[: next(i for i, s in enumerate(prog) if s["op"] == "mb_rec")]}))
         mbst = next(s for s in prog if s["op"] == "mb_rec")
-        variant = (mbst["kw"], len(mbst["args"]), bool(mbst.get("drop_axis")), mbst.get("new_axis") is not None, mbst.get("chunks") is not None)
+        variant = (mbst["kw"], bool(mbst.get("like")), len(mbst["args"]), bool(mbst.get("drop_axis")), mbst.get("new_axis") is not None, mbst.get("chunks") is not None)
         above = tuple(st["op"] for st in prog[prog.index(mbst) + 1:] if st["op"] != "src")
         for opt in (True, False):
             problems, info = evaluate(prog, root, opt)
